@@ -35,31 +35,35 @@ func unprovenBounds(p *Program) (map[string][]bceSite, error) {
 	if bceCache != nil || bceErr != nil {
 		return bceCache, bceErr
 	}
-	cmd := exec.Command("go", "build", "-gcflags="+modulePath+"=-d=ssa/check_bce/debug=1", ".")
+	cmd := exec.Command("go", "build", "-gcflags="+modulePath+"=-d=ssa/check_bce/debug=1 -d=ssa/prove/debug=1", ".")
 	cmd.Dir = p.RepoDir
 	cmd.Env = append(os.Environ(), "GOFLAGS=-mod=mod", "GOPROXY=off", "GOSUMDB=off", "GOTOOLCHAIN=local", "GOOS=", "GOARCH=")
 	var out bytes.Buffer
 	cmd.Stdout, cmd.Stderr = &out, &out
 	runErr := cmd.Run()
-	re := regexp.MustCompile(`^\./([^:]+):(\d+):(\d+): Found (IsInBounds|IsSliceInBounds)`)
+	re := regexp.MustCompile(`^\./([^:]+):(\d+):(\d+): (?:Found|Disproved) (IsInBounds|IsSliceInBounds)`)
 	res := map[string][]bceSite{}
 	n := 0
 	for _, ln := range strings.Split(out.String(), "\n") {
 		m := re.FindStringSubmatch(ln)
 		if m == nil {
-			if ln != "" && !strings.HasPrefix(ln, "#") && !strings.Contains(ln, "Found Is") {
-				bceErr = fmt.Errorf("compiler output not understood: %s", ln)
-				return nil, bceErr
-			}
 			continue
 		}
 		l, _ := strconv.Atoi(m[2])
 		c, _ := strconv.Atoi(m[3])
-		res[m[1]] = append(res[m[1]], bceSite{m[1], l, c, m[4]})
+		kind := m[4]
+		if strings.Contains(ln, ": Disproved ") {
+			kind = "Disproved"
+		}
+		res[m[1]] = append(res[m[1]], bceSite{m[1], l, c, kind})
 		n++
 	}
-	if runErr != nil && n == 0 {
+	if runErr != nil {
 		bceErr = fmt.Errorf("go build failed: %v", runErr)
+		return nil, bceErr
+	}
+	if n == 0 {
+		bceErr = fmt.Errorf("the compiler printed no bounds-check listing (flag not understood?)")
 		return nil, bceErr
 	}
 	bceCache = res
@@ -134,6 +138,12 @@ func checkBoundsProven(p *Program, r *Report, rule, file string) {
 				}
 				if ps := p.Fset.Position(lb); ps.Line == s.Line && ps.Column == s.Col {
 					hit, fn = n, fd
+				} else if s.Kind == "Disproved" && hit == nil {
+					// the prove pass reports the position of the operand, not of the bracket
+					a, b := p.Fset.Position(n.Pos()), p.Fset.Position(n.End())
+					if a.Line == s.Line && b.Line == s.Line && a.Column <= s.Col && s.Col < b.Column {
+						hit, fn = n, fd
+					}
 				}
 				return true
 			})
@@ -149,6 +159,10 @@ func checkBoundsProven(p *Program, r *Report, rule, file string) {
 		if o := pkg.Types.Scope().Lookup(name); o != nil && fn.Recv == nil {
 			name = canonName(o)
 		}
+		if s.Kind == "Disproved" {
+			r.Viol(rule, fmt.Sprintf("safehtml.%s#in-bounds:%s", name, expr), fmt.Sprintf("%s:%d", file, s.Line), "the compiler proves this index out of range where it is evaluated: every execution that reaches it panics", "")
+			continue
+		}
 		if bl := baselineFuncs[pkg.PkgPath]; bl != nil && !bl[name] {
 			// a function the pinned tree does not have: its callers' guards are not followed, so an index the
 			// compiler cannot prove locally says nothing; not decided (and said so)
@@ -163,6 +177,12 @@ func checkBoundsProven(p *Program, r *Report, rule, file string) {
 		}
 		pos := fmt.Sprintf("%s:%d", file, s.Line)
 		if why, ok := bceArgued[file][key]; ok {
+			if key == "appendURLToSet url[left:right]" {
+				if bad := sliceEndsStayOrdered(p, fn.Name.Name, s); bad != "" {
+					r.Viol(rule, cn, pos, "the argument for this slice expression no longer holds: "+bad+" — URLSetSanitized(\",\") slices url[1:0] and panics", "")
+					continue
+				}
+			}
 			r.OK(rule, cn, pos, "not proven by the compiler; argued: "+why)
 		} else if !integerGuarded(p, fn.Name.Name, s) {
 			// no comparison of the length or of the index guards it: the range is established some other way
@@ -262,4 +282,100 @@ func integerGuarded(p *Program, fname string, s bceSite) bool {
 		}
 	}
 	return false
+}
+
+// sliceEndsStayOrdered re-checks the hand argument for x[lo:hi] where hi is len(x) or len(x)-1: the edge that
+// lowers hi is taken only under lo < hi (strictly), so lo ≤ hi afterwards.
+func sliceEndsStayOrdered(p *Program, fname string, s bceSite) string {
+	f := p.Func("", fname)
+	if f == nil {
+		return ""
+	}
+	var sl *ssa.Slice
+	for _, b := range f.Blocks {
+		for _, in := range b.Instrs {
+			if y, ok := in.(*ssa.Slice); ok {
+				if ps := p.Fset.Position(y.Pos()); ps.Line == s.Line && ps.Column == s.Col {
+					sl = y
+				}
+			}
+		}
+	}
+	if sl == nil || sl.Low == nil || sl.High == nil {
+		return ""
+	}
+	hp, ok := sl.High.(*ssa.Phi)
+	if !ok {
+		return ""
+	}
+	for i, e := range hp.Edges {
+		bo, ok := e.(*ssa.BinOp)
+		if !ok || bo.Op != token.SUB {
+			continue
+		}
+		if lv, isLen := isLenOf(bo.X); !isLen || lv != sl.X {
+			continue
+		}
+		pred := hp.Block().Preds[i]
+		okEdge := false
+		for _, gd := range append(GuardsOf(pred), Guard{}) {
+			c, ok := gd.Cond.(*ssa.BinOp)
+			if !ok || !gd.Pol {
+				continue
+			}
+			lo, hi := c.X, c.Y
+			switch c.Op {
+			case token.LSS:
+			case token.GTR:
+				lo, hi = hi, lo
+			default:
+				continue
+			}
+			if lv, isLen := isLenOf(hi); isLen && lv == sl.X && (lo == sl.Low || samePhiValue(lo, sl.Low)) {
+				okEdge = true
+			}
+		}
+		if !okEdge {
+			return "the upper bound is lowered to len-1 (" + p.Pos(bo.Pos()) + ") on a path that is not guarded by lower < len"
+		}
+	}
+	return ""
+}
+
+func samePhiValue(a, b ssa.Value) bool {
+	pa, ok1 := a.(*ssa.Phi)
+	pb, ok2 := b.(*ssa.Phi)
+	return ok1 && ok2 && pa == pb
+}
+
+// checkNoDisprovedBounds (C08): the compiler's prove pass finds no index or slice expression of the package that is
+// out of range on the path on which it is evaluated (a certain panic). Nothing is executed.
+func checkNoDisprovedBounds(p *Program, r *Report, rule string, rels ...string) {
+	for _, rel := range rels {
+		cn := "safehtml/" + rel + "#no-index-proved-out-of-range"
+		cmd := exec.Command("go", "build", "-gcflags="+modulePath+"/...=-d=ssa/prove/debug=1", "./"+rel)
+		cmd.Dir = p.RepoDir
+		cmd.Env = append(os.Environ(), "GOFLAGS=-mod=mod", "GOPROXY=off", "GOSUMDB=off", "GOTOOLCHAIN=local", "GOOS=", "GOARCH=")
+		var out bytes.Buffer
+		cmd.Stdout, cmd.Stderr = &out, &out
+		if err := cmd.Run(); err != nil {
+			r.Undec(rule, cn, "", "go build failed: "+err.Error())
+			continue
+		}
+		re := regexp.MustCompile(`^(?:\./)?([^:]+):(\d+):(\d+): Disproved (IsInBounds|IsSliceInBounds)`)
+		facts, bad := 0, ""
+		for _, ln := range strings.Split(out.String(), "\n") {
+			if strings.Contains(ln, ": Proved ") || strings.Contains(ln, ": Disproved ") {
+				facts++
+			}
+			if m := re.FindStringSubmatch(ln); m != nil && bad == "" {
+				bad = m[1] + ":" + m[2]
+			}
+		}
+		if facts == 0 {
+			r.Undec(rule, cn, "", "the compiler printed no facts of its prove pass (flag not understood?)")
+			continue
+		}
+		r.Check(bad == "", rule, cn, rel, fmt.Sprintf("none of the index and slice expressions of the package is proved out of range (%d facts of the prove pass read)", facts), "the compiler proves an index or slice expression out of range where it is evaluated ("+bad+"): every execution that reaches it panics")
+	}
 }
